@@ -7,4 +7,5 @@ func Register(m map[string]func(*Ctx)) {
 	m["C14"] = RunC14
 	m["C03"] = RunC03
 	m["C11"] = RunC11
+	m["C07"] = RunC07
 }
